@@ -96,7 +96,8 @@ BaseCfg == [uvCap |-> "configured", upCap |-> TRUE, counterOn |-> TRUE, idLen |-
 NoPrfReq == [given |-> FALSE, eval |-> "absent", byCred |-> <<>>, byCredGiven |-> FALSE]
 BaseReq == [rp |-> "r1", user |-> "u1", algs |-> <<"ES256">>, exclude |-> <<>>, excludeGiven |-> FALSE,
             allow |-> <<>>, allowGiven |-> FALSE, rk |-> FALSE, up |-> TRUE, uv |-> FALSE, pinAuth |-> FALSE,
-            hs |-> "absent", prf |-> NoPrfReq, cdh |-> "h1"]
+            hs |-> "absent", prf |-> NoPrfReq, cdh |-> "h1",
+            unkType |-> FALSE]      \* the allow / exclude descriptors carry a credential type the library does not know
 
 UvOk(p, v) == [kind |-> "ok", pres |-> p, verif |-> v, err |-> 0]
 UvErr(code) == [kind |-> "err", pres |-> FALSE, verif |-> FALSE, err |-> code]
@@ -156,11 +157,11 @@ C05_Stores == { <<s>> : s \in C05_Contents }
 C05_Lists == { <<>>, <<"c1">>, <<"c2">>, <<"c3">>, <<"x1">>, <<"c1", "c2">>, <<"c2", "c1">>, <<"c1", "c3">>,
                <<"c3", "x1">>, <<"x1", "c2">>, <<"c1", "c2", "c3">> }
 C05_Cers ==
-    { << Cer("ctap2", "ga", [BaseReq EXCEPT !.rp = r, !.allow = a, !.allowGiven = g], BaseEnv) >> :
-        r \in {"r1", "r2"}, a \in C05_Lists, g \in BOOLEAN }
+    { << Cer("ctap2", "ga", [BaseReq EXCEPT !.rp = r, !.allow = a, !.allowGiven = g, !.unkType = t], BaseEnv) >> :
+        r \in {"r1", "r2"}, a \in C05_Lists, g \in BOOLEAN, t \in BOOLEAN }
     \cup
-    { << Cer("ctap2", "mc", [BaseReq EXCEPT !.rp = r, !.exclude = a, !.excludeGiven = g, !.user = "u3"], BaseEnv) >> :
-        r \in {"r1", "r2"}, a \in C05_Lists, g \in BOOLEAN }
+    { << Cer("ctap2", "mc", [BaseReq EXCEPT !.rp = r, !.exclude = a, !.excludeGiven = g, !.user = "u3", !.unkType = t], BaseEnv) >> :
+        r \in {"r1", "r2"}, a \in C05_Lists, g \in BOOLEAN, t \in BOOLEAN }
 C05_CfgsRef == { [BaseCfg EXCEPT !.emptyAsErr = e] : e \in BOOLEAN }
 C05_CfgsMem == { [BaseCfg EXCEPT !.storeKind = "memory", !.disc = "forced"] }
 C05_CfgsSlot == { [BaseCfg EXCEPT !.storeKind = "slot", !.disc = "forced"] }
@@ -174,7 +175,8 @@ C05_MemStores == { <<s>> : s \in { t \in C05_Contents :
 (* C08: counters                                                            *)
 
 C08_Ctrs == { NoCtr, Ctr(0, 0), Ctr(0, 1), Ctr(32767, 65535), Ctr(32768, 0), Ctr(65535, 65534), Ctr(65535, 65535) }
-C08_Cfgs == { [BaseCfg EXCEPT !.hmac = "withoutuv"] }
+C08_Cfgs == { [BaseCfg EXCEPT !.hmac = "withoutuv"],
+              [BaseCfg EXCEPT !.hmac = "withoutuv", !.storeKind = "memory", !.disc = "forced"] }
 C08_Stores == { << <<Cred("c1", "r1", "u1", a, "both"), Cred("c2", "r1", "u2", b, "none")>> >> :
                   a \in C08_Ctrs, b \in {NoCtr, Ctr(0, 5)} }
 C08_Ga(id, p) == Cer("ctap2", "ga", [BaseReq EXCEPT !.allow = <<id>>, !.allowGiven = TRUE,
